@@ -341,9 +341,9 @@ let run line =
        (match split_ops test with
         | [op] ->
           (match kind op with
+           | k when all_too && not (List.mem k ["aa"; "ap"; "ai"; "as"; "ad"]) -> raise Unmodelled
            | "oa" -> predict_oa setup op
            | "aa" | "ap" | "ai" | "as" | "ad" -> predict_arr all_too setup op
-           | _ when all_too -> raise Unmodelled
            | "ss" | "sl" -> predict_str setup op
            | "ns" -> if setup = [] then predict_ns op else raise Unmodelled
            | "ds" -> if setup = [] then predict_ds () else raise Unmodelled
